@@ -783,6 +783,9 @@ func (se *SpecEnv) callExpr(x *SCall) (Value, types.Type) {
 						var args []Value
 						for i, a := range x.Args {
 							av, t := se.eval(a)
+							if i >= fn.Signature.Params().Len() {
+								se.fail(x, "too many arguments (variadic functions cannot be called with spread arguments in specifications)")
+							}
 							pt := fn.Signature.Params().At(i).Type()
 							if c, ok := av.(*constVal); ok {
 								av = se.materialize(c, Sym("x", vc.SortOf(pt)), t)
@@ -801,6 +804,9 @@ func (se *SpecEnv) callExpr(x *SCall) (Value, types.Type) {
 				var args []Value
 				for i, a := range x.Args {
 					v, t := se.eval(a)
+					if i >= obj.Type().(*types.Signature).Params().Len() {
+						se.fail(x, "too many arguments (variadic functions cannot be called with spread arguments in specifications)")
+					}
 					pt := obj.Type().(*types.Signature).Params().At(i).Type()
 					if c, ok := v.(*constVal); ok {
 						v = se.materialize(c, Sym("x", vc.SortOf(pt)), t)
@@ -826,6 +832,9 @@ func (se *SpecEnv) callExpr(x *SCall) (Value, types.Type) {
 						var args []Value
 						for i, a := range x.Args {
 							v, t := se.eval(a)
+							if i >= f.Type().(*types.Signature).Params().Len() {
+								se.fail(x, "too many arguments (variadic functions cannot be called with spread arguments in specifications)")
+							}
 							pt := f.Type().(*types.Signature).Params().At(i).Type()
 							if c, ok := v.(*constVal); ok {
 								v = se.materialize(c, Sym("x", vc.SortOf(pt)), t)
